@@ -84,6 +84,8 @@ fn gen_string(rng: &mut Rng) -> String {
         "ffff:ffff:ffff:ffff:ffff:ffff:ffff:ffff", "1111:2222:3333:4444:5555:6666:255.255.255.255",
         "fe80:1111:2222:3333:4444:5555:6666:7777%4294967295", "1111:2222:3333:4444:5555:6666:255.255.255.255%4294967295",
         "0000:0000:0000:0000:0000:0000:0000:0001", "fe80::1%4294967296",
+        // uppercase and mixed-case hex digits are the same address
+        "FE80::1", "2001:DB8::8A2E:370:7334", "::FFFF:192.168.0.1", "Fe80::aB", "ABCD:EF01:2345:6789:ABCD:EF01:2345:6789",
     ];
     let hosts = ["localhost", "example.com", "my-host.local", "a", "x.y.z", "ñandú.es", "服务器"];
     match rng.below(22) {
